@@ -775,9 +775,117 @@ def host_tasks():
     return [t1, t2]
 
 
+def effect_tasks():
+    """callee effects on shared state observed by the caller right after the call, inside one straight-line block:
+    effect kind (i32 / i64 / f64 global, memory, global written by a transitive callee) x call kind (direct call,
+    call_indirect with a constant index, call_indirect with an index computed at run time, several entries of one
+    signature in the table); caller writes seen by the callee; locals live across calls; bounded recursion on shared state"""
+    d = new_module(mem=[1, 1], table=[16, 16])
+    d["globals"] = [["i32", True, 600], ["i64", True, (1 << 40) + 5], ["f64", True, f64_bits(2.5)], ["i32", True, 7]]
+    A = 64          # the memory cell the callees write
+    # --- callees () -> ()
+    inc0 = add_func(d, [], [], [], [["global.get", 0], I(1), ["i32.add"], ["global.set", 0]])
+    nopp = add_func(d, [], [], [], [["nop"]])
+    inc1 = add_func(d, [], [], [], [["global.get", 1], C("i64", 1 << 33), ["i64.add"], ["global.set", 1]])
+    set2 = add_func(d, [], [], [], [["global.get", 2], C("f64", 0.25), ["f64.add"], ["global.set", 2]])
+    stm = add_func(d, [], [], [], [I(A), I(A), ["i32.load", 0], I(5), ["i32.add"], ["i32.store", 0]])
+    trd = add_func(d, [], [], [], [["call", inc0], ["call", stm]])
+    t_vv = type_index(d, [], [])
+    tri = add_func(d, [], [], [], None)     # body below (needs the table slots)
+    inc3 = add_func(d, [], [], [], [["global.get", 3], I(3), ["i32.mul"], ["global.set", 3]])
+    # --- callees (i32) -> (i32)
+    addg = add_func(d, ["i32"], ["i32"], [], [["global.get", 0], L(0), ["i32.add"], ["global.set", 0], ["global.get", 0]])
+    rdg = add_func(d, ["i32"], ["i32"], [], [["global.get", 0], L(0), ["i32.add"]])
+    stld = add_func(d, ["i32"], ["i32"], [], [I(A), ["i32.load", 0], I(A), L(0), ["i32.store", 0]])
+    idf = add_func(d, ["i32"], ["i32"], [], [L(0)])
+    t_ii = type_index(d, ["i32"], ["i32"])
+    # table: slots 0..7 type ()->(), 8..11 type (i32)->(i32)
+    vv = [inc0, nopp, inc1, set2, stm, trd, tri, inc3]
+    ii = [addg, rdg, stld, idf]
+    d["elems"] = [[0, vv], [8, ii]]
+    SLOT = {f: k for k, f in enumerate(vv)}
+    SLOT.update({f: 8 + k for k, f in enumerate(ii)})
+    d["funcs"][tri]["body"] = [I(SLOT[inc0]), ["call_indirect", t_vv], I(SLOT[stm]), ["call_indirect", t_vv]]
+    calls = []
+    OBS = {"global[i32]": ("i32", [["global.get", 0]]), "global[i64]": ("i64", [["global.get", 1]]), "global[f64]": ("f64", [["global.get", 2]]),
+           "memory": ("i32", [I(A), ["i32.load", 0]]), "global[i32 other]": ("i32", [["global.get", 3]])}
+    WRITER = {"global[i32]": inc0, "global[i64]": inc1, "global[f64]": set2, "memory": stm, "global[i32 other]": inc3}
+
+    def combine(t):          # before, after on the stack -> one value that shows both
+        if t == "f64":
+            return [C("f64", 1024.0), ["f64.mul"], ["f64.add"]]
+        return [C(t, 1000), [f"{t}.mul"], [f"{t}.add"]]
+    for kind, (t, obs) in OBS.items():
+        w = WRITER[kind]
+        variants = [("call", [["call", w]], []),
+                    ("call_indirect", [I(SLOT[w]), ["call_indirect", t_vv]], []),
+                    ("call_indirect[run-time index]", [L(0), ["call_indirect", t_vv]], ["i32"]),
+                    ("call_indirect[computed index]", [L(0), I(1), ["i32.and"], I(SLOT[w] - SLOT[nopp]), ["i32.mul"], I(SLOT[nopp]), ["i32.add"], ["call_indirect", t_vv]], ["i32"])]
+        for cname, callcode, params in variants:
+            # read; call; read
+            f1 = add_func(d, params, [t], [], obs + callcode + obs + combine(t))
+            # read; call; read; call; read
+            f2 = add_func(d, params, [t], [], obs + callcode + obs + combine(t) + callcode + obs + combine(t))
+            # call; read (no earlier read)
+            f3 = add_func(d, params, [t], [], callcode + obs)
+            for f, shape in ((f1, "R;{};R"), (f2, "R;{};R;{};R"), (f3, "{};R")):
+                label = shape.replace("R", kind).replace("{}", cname)
+                if not params:
+                    calls += [(f, (), label)] * 2
+                elif "computed" in cname:
+                    calls += [(f, (v,), label) for v in (0, 1, 3, 2)]
+                else:
+                    calls += [(f, (v,), label) for v in (SLOT[w], SLOT[nopp], SLOT[trd], SLOT[tri], SLOT[w])]
+    # transitive writers
+    for cname, callcode in (("call[transitive]", [["call", trd]]), ("call_indirect[transitive]", [I(SLOT[tri]), ["call_indirect", t_vv]]),
+                            ("call_indirect[transitive direct]", [I(SLOT[trd]), ["call_indirect", t_vv]]), ("call[transitive indirect]", [["call", tri]])):
+        for kind in ("global[i32]", "memory"):
+            t, obs = OBS[kind]
+            f = add_func(d, [], [t], [], obs + callcode + obs + combine(t))
+            calls += [(f, (), f"{kind};{cname};{kind}")] * 2
+    # callee with a result; the result and both reads are used
+    for cname, callcode in (("call", [["call", addg]]), ("call_indirect", [I(SLOT[addg]), ["call_indirect", t_ii]]),
+                            ("call_indirect[run-time index]", [L(1), ["call_indirect", t_ii]])):
+        params = ["i32", "i32"]
+        f = add_func(d, params, ["i32"], [], [["global.get", 0], L(0)] + callcode + [["i32.add"], ["global.get", 0], I(100000), ["i32.mul"], ["i32.add"]])
+        for v, sl in ((1, SLOT[addg]), (5, SLOT[rdg]), (9, SLOT[idf]), (2, SLOT[addg])):
+            calls.append((f, (v, sl), f"global[i32];{cname}[result used];global[i32]"))
+        g = add_func(d, params, ["i32"], [], [I(A), ["i32.load", 0], L(0)] + callcode.copy() + [["i32.add"], I(A), ["i32.load", 0], I(100000), ["i32.mul"], ["i32.add"]])
+        for v, sl in ((11, SLOT[stld]), (12, SLOT[idf]), (13, SLOT[stld])):
+            if cname == "call":
+                break
+            calls.append((g, (v, sl), f"memory;{cname}[result used];memory"))
+    # the caller writes, the callee reads
+    for cname, callcode in (("call", [["call", rdg]]), ("call_indirect", [I(SLOT[rdg]), ["call_indirect", t_ii]])):
+        f = add_func(d, ["i32"], ["i32"], [], [["global.get", 0], ["drop"], L(0), ["global.set", 0], I(5)] + callcode + [["global.get", 0], ["i32.add"]])
+        calls += [(f, (v,), f"global.set;{cname}[callee reads];global.get") for v in (40, 41)]
+    for cname, callcode in (("call", [["call", stld]]), ("call_indirect", [I(SLOT[stld]), ["call_indirect", t_ii]])):
+        f = add_func(d, ["i32"], ["i32"], [], [I(A), ["i32.load", 0], ["drop"], I(A), L(0), ["i32.store", 0], I(77)] + callcode + [I(A), ["i32.load", 0], I(1000), ["i32.mul"], ["i32.add"]])
+        calls += [(f, (v,), f"store;{cname}[callee reads and writes];load") for v in (3, 4)]
+    # locals live across calls
+    for cname, callcode in (("call", [["call", addg]]), ("call_indirect", [I(SLOT[addg]), ["call_indirect", t_ii]])):
+        f = add_func(d, ["i32", "i64", "f64"], ["f64"], ["i32", "f64"],
+                     [L(0), I(3), ["i32.mul"], ["local.set", 3], L(2), C("f64", 0.5), ["f64.mul"], ["local.set", 4], L(0)] + callcode +
+                     [["f64.convert_i32_s"], L(3), ["f64.convert_i32_s"], ["f64.add"], L(4), ["f64.add"], L(1), ["f64.convert_i64_s"], ["f64.add"], L(2), ["f64.add"]])
+        calls += [(f, (v, 1 << 35, f64_bits(1.25)), f"locals live across {cname}") for v in (2, 3)]
+    # bounded recursion on shared state, direct and through the table
+    rec = add_func(d, ["i32"], ["i32"], [], None)
+    d["funcs"][rec]["body"] = [L(0), ["i32.eqz"], ["if", [], ["i32"], [["global.get", 0]],
+                               [["global.get", 0], L(0), ["i32.add"], ["global.set", 0], ["global.get", 0], L(0), I(1), ["i32.sub"], ["call", rec],
+                                ["global.get", 0], ["i32.add"], ["i32.add"]]]]
+    reci = add_func(d, ["i32"], ["i32"], [], None)
+    d["elems"].append([12, [reci]])
+    d["funcs"][reci]["body"] = [L(0), ["i32.eqz"], ["if", [], ["i32"], [["global.get", 0]],
+                                [["global.get", 0], L(0), ["i32.add"], ["global.set", 0], ["global.get", 0], L(0), I(1), ["i32.sub"], I(12), ["call_indirect", t_ii],
+                                 ["global.get", 0], ["i32.add"], ["i32.add"]]]]
+    for v in (0, 1, 4, 9):
+        calls += [(rec, (v,), "recursion[call, shared global]"), (reci, (v,), "recursion[call_indirect, shared global]")]
+    return [task("effects", d, calls, name="effects")]
+
+
 def pattern_tasks(rng=None, thorough=False):
     ts = cmp_tasks(thorough) + [const_task(), locals_task(), globals_task()] + memory_tasks() + memgrow_tasks() + control_tasks() + call_tasks()
-    ts += [start_task(), trapping_start_task()] + host_tasks()
+    ts += [start_task(), trapping_start_task()] + host_tasks() + effect_tasks()
     return ts
 
 
@@ -799,6 +907,8 @@ class FuncGen:
         self.has_mem = has_mem
         self.table_sigs = table_sigs    # [(table slot, funcidx)]
         self.reserved = set()
+        self.recursive = False
+        self.self_slot = None
         self.labels = []                # innermost first: arity type or None (loops: None = branch carries nothing)
         self.budget = rng.randrange(25, 90)
 
@@ -859,22 +969,58 @@ class FuncGen:
             def body():
                 return self.expr(t, d) + self.cond(d) + [["br_if", 0], ["drop"]] + self.expr(t, d)
             return [["block", [], [t], self.in_label(t, body)]]
-        if r < 0.90:
+        if r < 0.88:
             cands = [k for k, (ps, rs) in enumerate(self.sigs) if rs == [t]]
             if cands:
-                k = rng.choice(cands)
-                code = []
-                for pt in self.sigs[k][0]:
-                    code += self.expr(pt, min(d, 1))
-                slots = [s for s, f in self.table_sigs if f == k]
-                if slots and rng.random() < 0.5:
-                    return code + [I(rng.choice(slots)), ["call_indirect", type_index(self.mod, *self.sigs[k])]]
-                return code + [["call", k]]
-        if r < 0.95:
+                return self.call_code(rng.choice(cands), min(d, 1))
+        if r < 0.93 and self.sigs:
+            sw = self.sandwich(t)
+            if sw:
+                return sw
+        if r < 0.96:
             ls = self.locals_of(t)
             if ls:
                 return self.expr(t, d) + [["local.tee", rng.choice(ls)]]
         return self.arith(t, d)
+
+    def call_code(self, k, argdepth, straight=False):
+        """call function k (arguments first): directly, through the table with a constant index, or with an index computed at
+        run time that selects between two table entries of the same signature.  `straight`: no control flow in the code"""
+        rng = self.rng
+        code = []
+        for pt in self.sigs[k][0]:
+            code += self.expr(pt, 0 if straight else argdepth)
+        slots = [s for s, f in self.table_sigs if f == k]
+        r = rng.random()
+        if slots and r < 0.6:
+            ti = type_index(self.mod, *self.sigs[k])
+            s1 = rng.choice(slots)
+            others = [s for s, f in self.table_sigs if self.sigs[f] == self.sigs[k] and s != s1]
+            ls = self.locals_of("i32")
+            if others and ls and r < 0.35:
+                s2 = rng.choice(others)
+                return code + [L(rng.choice(ls)), I(1), ["i32.and"], I((s2 - s1) & 0xFFFFFFFF), ["i32.mul"], I(s1), ["i32.add"], ["call_indirect", ti]]
+            return code + [I(s1), ["call_indirect", ti]]
+        return code + [["call", k]]
+
+    def sandwich(self, t):
+        """observe shared state, call, observe it again - all in one straight-line block - and combine both observations"""
+        rng = self.rng
+        obs = None
+        gs = [k for k, (gt, m) in enumerate(self.gtypes) if gt == t and m]
+        if gs and (not self.has_mem or rng.random() < 0.6):
+            obs = [["global.get", rng.choice(gs)]]
+        elif self.has_mem:
+            obs = [I(rng.randrange(0, 256) * 8), [f"{t}.load", rng.randrange(0, 8)]]
+        if obs is None:
+            return None
+        k = rng.randrange(len(self.sigs))
+        call = self.call_code(k, 0, straight=True) + ([["drop"]] if self.sigs[k][1] else [])
+        comb = {"i32": [["i32.xor"]], "i64": [["i64.add"]], "f32": [["f32.max"]], "f64": [["f64.add"]]}[t]
+        code = obs + call + obs + comb
+        if rng.random() < 0.3:
+            code = code + call + obs + comb
+        return code
 
     def cond(self, depth):
         """an i32 used as a condition: often a (not materialised) comparison, sometimes negated"""
@@ -1027,26 +1173,56 @@ class FuncGen:
             for k in range(n - 1):
                 code = [["block", [], [], code + arms[k] + [["br", n - 1 - k - 1]]]] if False else [["block", [], [], code + arms[k]]]
             return [["block", [], [], code + arms[n - 1]]] if n > 1 else code
-        if r < 0.90:
+        if r < 0.89:
             t = rng.choice(TYPES)
             return self.expr(t, d) + [["drop"]]
-        if r < 0.94:
+        if r < 0.92:
             # leave an enclosing statement block / loop early
             cands = [k for k, a in enumerate(self.labels) if a is None]
             if cands:
                 return self.cond(d) + [["br_if", rng.choice(cands)]]
-        if r < 0.97:
-            cands = [k for k, (ps, rs) in enumerate(self.sigs) if rs == []]
-            if cands:
-                k = rng.choice(cands)
-                code = []
-                for pt in self.sigs[k][0]:
-                    code += self.expr(pt, min(d, 1))
-                return code + [["call", k]]
+        if r < 0.99 and self.sigs:
+            k = rng.randrange(len(self.sigs))
+            return self.call_code(k, min(d, 1)) + ([["drop"]] if self.sigs[k][1] else [])
         return [["nop"]]
 
+    def effects(self):
+        """a few unconditional updates of shared state, so that (nearly) every function is a writer"""
+        rng = self.rng
+        code = []
+        for k, (gt, m) in enumerate(self.gtypes):
+            if m and rng.random() < 0.45:
+                if gt in INTS:
+                    code += [["global.get", k], C(gt, rng.randrange(1, 9)), [f"{gt}.{rng.choice(['add', 'xor', 'sub'])}"], ["global.set", k]]
+                else:
+                    code += [["global.get", k], [f"{gt}.neg"], ["global.set", k]]
+        if self.has_mem and rng.random() < 0.6:
+            a = rng.randrange(0, 256) * 8
+            code += [I(a), I(a), ["i64.load", 0], C("i64", rng.randrange(1, 1 << 20)), ["i64.add"], ["i64.store", 0]]
+        return code
+
+    def recursion(self):
+        """self call with a depth bound: depth = param0 & 7 (taken before anything can change it), the callee gets depth - 1"""
+        rng = self.rng
+        dl = self.new_local("i32")
+        pre = [L(0), I(7), ["i32.and"], ["local.set", dl]]
+        args = [L(dl), I(1), ["i32.sub"]]
+        for pt in self.params[1:]:
+            args += self.expr(pt, 0)
+        if self.self_slot is not None and rng.random() < 0.5:
+            call = args + [I(self.self_slot), ["call_indirect", type_index(self.mod, self.params, self.result)]]
+        else:
+            call = args + [["call", self.index]]
+        if self.result:
+            ls = self.locals_of(self.result[0])
+            call += [["local.set", rng.choice(ls)]] if ls else [["drop"]]
+        return pre, [L(dl), ["if", [], [], self.effects() + call, []]]
+
     def body(self):
-        code = self.stmts(3, self.rng.randrange(2, 6))
+        pre, rec = ([], [])
+        if self.recursive:
+            pre, rec = self.recursion()
+        code = pre + self.effects() + self.stmts(3, self.rng.randrange(1, 4)) + rec + self.stmts(3, self.rng.randrange(1, 3))
         if code and code[-1][0] in ("br", "br_table", "return", "unreachable"):
             code = code[:-1]
         if self.result:
@@ -1071,19 +1247,33 @@ def random_program(rng, ident):
     if has_mem:
         d["datas"] = [[rng.randrange(0, 200), bytes(rng.getrandbits(8) for _ in range(rng.randrange(1, 40))).hex()],
                       [65536 - 16, bytes(rng.getrandbits(8) for _ in range(16)).hex()]]
-    nf = rng.randrange(2, 6)
+    nf = rng.randrange(3, 7)
+    # a small pool of signatures, so that several functions (and table entries) share one
+    pool = []
+    for _ in range(rng.randrange(2, 4)):
+        ps = [rng.choice(TYPES) for _ in range(rng.randrange(0, 3))]
+        pool.append((ps, [rng.choice(TYPES)] if rng.random() < 0.75 else []))
     sigs = []
     table_sigs = []
     for k in range(nf):
-        params = [rng.choice(TYPES) for _ in range(rng.randrange(0, 4))]
-        result = [rng.choice(TYPES)] if rng.random() < 0.85 or k == nf - 1 else []
+        params, result = rng.choice(pool)
+        params, result = list(params), list(result)
+        if k == nf - 1 and not result:
+            result = [rng.choice(TYPES)]
+        recursive = rng.random() < 0.25
+        if recursive:
+            params = ["i32"] + params[:2]
         d["funcs"].append({"type": type_index(d, params, result), "locals": [], "body": []})
         g = FuncGen(rng, d, k, params, result, list(sigs), gtypes, has_mem, list(table_sigs))
+        g.recursive = recursive
+        in_table = rng.random() < 0.75 and len(table_sigs) < 6
+        if in_table and recursive:
+            g.self_slot = len(table_sigs)
         body = g.body()
         d["funcs"][k]["locals"] = g.locals[len(params):]
         d["funcs"][k]["body"] = body
         sigs.append((params, result))
-        if rng.random() < 0.6 and len(table_sigs) < 5:
+        if in_table:
             table_sigs.append((len(table_sigs), k))
     if table_sigs:
         d["elems"] = [[0, [f for _s, f in table_sigs]]]
